@@ -40,7 +40,7 @@ def scenarios(tier):
     sc.append(('maxname', dict(q=['m'], an=[('NS', 'm', ['n'])], ns=[], ar=[], opt=None)))   # 255-octet names
     sc.append(('far', dict(q=['a'], an=[('NULLBIG', 'd', []), ('NS', 'b', ['c']), ('NS', 'c', ['b']), ('MX', 'b', ['b'])], ns=[], ar=[], opt=None)))
     sc.append(('soa_minfo', dict(q=[], an=[('SOA', 'a', ['b', 'c'])], ns=[('MINFO', 'd', ['a', 'b'])], ar=[], opt=None)))
-    if tier == 'thorough':
+    if True:      # cheap enough for the quick tier as well
         sc.append(('rp_afsdb_rt', dict(q=['b'], an=[('RP', 'a', ['b', 'c']), ('AFSDB', 'b', ['a'])], ns=[('RouteThrough', 'c', ['b'])], ar=[], opt=None)))
         sc.append(('nocompress', dict(q=['a'], an=[('KX', 'a', ['b']), ('NAPTR', 'b', ['a']), ('RRSIG', 'c', ['b'])],
                                       ns=[('NSEC', 'a', ['b']), ('SVCB', 'b', ['a']), ('IPSECKEY', 'a', ['b'])], ar=[], opt=None)))
